@@ -494,9 +494,7 @@ Record dialect := mkDia {
   dia_rel : val -> Z -> option Z;            (* relative start/end -> index in [0,len] *)
   dia_cnt : val -> Z -> option Z;            (* deleteCount -> [0,bound] *)
   dia_indexof : val -> Z -> option (option Z);
-  dia_lastindexof : val -> Z -> option (option Z);
-  dia_lio_conv_first : bool;  (* lastIndexOf converts fromIndex before the "len is 0" exit *)
-  dia_join_sep_first : bool   (* join converts the separator before it reads length *)
+  dia_lastindexof : val -> Z -> option (option Z)
 }.
 
 Definition es5 : dialect :=
@@ -504,8 +502,7 @@ Definition es5 : dialect :=
         (fun v len => option_map (fun r => clamp_rel r len) (to_integer v))
         (fun v b => option_map (fun r => clamp_cnt r b) (to_integer v))
         (fun v len => option_map (fun r => clamp_indexof r len) (to_integer v))
-        (fun v len => option_map (fun r => clamp_lastindexof r len) (to_integer v))
-        false false.
+        (fun v len => option_map (fun r => clamp_lastindexof r len) (to_integer v)).
 
 Section Methods.
 Variable D : dialect.
@@ -674,10 +671,8 @@ Definition join_sep (args : list marg) : M (list Z) :=
   sepv <- arg_val (nth_arg args 0) ;;
   match sepv with VUndef => ret [44] | _ => opt_m (to_string sepv) end.
 Definition m_join (args : list marg) : M rv :=
-  ls <- (if dia_join_sep_first D
-         then sep <- join_sep args ;; len <- m_len ;; ret (len, sep)
-         else len <- m_len ;; sep <- join_sep args ;; ret (len, sep)) ;;          (* 15.4.4.5 steps 2-3, then 4-5 *)
-  let '(len, sep) := ls in
+  len <- m_len ;;                      (* 15.4.4.5 steps 2-3, then 4-5 *)
+  sep <- join_sep args ;;
   if len =? 0 then ret (RVal (VStr [])) else
   n <- cnt (len - 1) ;;
   e0 <- m_get (KI 0) ;;
@@ -814,7 +809,7 @@ Definition m_indexof (args : list marg) : M rv :=
 Definition m_lastindexof (args : list marg) : M rv :=
   len <- m_len ;;
   x <- arg_val (nth_arg args 0) ;;
-  if (len =? 0) && negb (dia_lio_conv_first D) then ret (RVal (VNum (-1))) else     (* step 4, before ToInteger(fromIndex) *)
+  if len =? 0 then ret (RVal (VNum (-1))) else     (* step 4, before ToInteger(fromIndex) *)
   st0 <- (match nth_arg args 1 with
           | None => ret (if len =? 0 then None else Some (len - 1))
           | a => v <- arg_val a ;; opt_m (dia_lastindexof D v len)
